@@ -58,7 +58,9 @@ CLAIMED = {
         text="For every sync of the C01 pairs and C02 histories TLC checks the notification log against spec/Notify.tla: applying the events "
              "to a model of the old destination yields the new one, every identity-changed path reported exactly once with the stat as sent, "
              "no unchanged path reported, top-most deletes reported, digest = (header of the stat as sent, bytes now stored), parent before "
-             "child, delete before re-add. The ContentHasher is a transparent recorder so digests decompose into comparable fields.",
+             "child, delete before re-add. The ContentHasher is a transparent recorder so digests decompose into comparable fields. "
+             "spec/DiffMergeMC.tla transcribes the merge loop of doubleWalkDiff with its rmdir register and TLC proves the clauses for all 20736 "
+             "tree pairs of a bounded universe (names a, a-b), with a sanity configuration that must be rejected.",
         design_ref="DESIGN.md section 6 C05",
         note=_SYNC_NOTE,
         technique="TLA+ property layer (Notify) + TLC trace validation of real sync executions with a transparent hasher"),
